@@ -4,8 +4,9 @@ BFS over operation sequences on a real `Model`; reference = dict id -> (type, st
 set of ids ever issued.  After *every* operation every query of the registry is compared.
 
 Canonical state = (next id, ordered (id, type, state) of live agents as the *implementation*
-holds them, the implementation's type map).  Futures of the registry depend only on these
-(positions vs ids included), so merging equal keys is sound.
+holds them, the implementation's type map, and the shape of every other container the model object
+holds - explore.hidden_shape).  Futures of the registry depend only on these (positions vs ids
+included), so merging equal keys is sound.
 """
 from mc import core, explore
 
@@ -45,17 +46,34 @@ class Ref:
         return [i for i, (ty, _) in self.live.items() if ty == t]
 
 
+AGED = 300      # the aged root: this many agents were created and all but the last two deleted before the search starts
+
+
 class System:
-    def __init__(self, max_id):
-        self.max_id = max_id   # ids offered to delete/set_state range over 0..max_id-1
+    def __init__(self, aged=False):
+        # aged: the search starts from a model with a long past (ids in the hundreds, two survivors) instead of an empty one
+        self.aged = aged
 
     def new(self):
-        return _mk_model(), Ref()
+        m, ref = _mk_model(), Ref()
+        if self.aged:
+            m.create_agents({"name": "a", "count": AGED})
+            m.delete_agents(list(range(AGED - 2)))
+            ref.issued = set(range(AGED))
+            ref.live = {AGED - 2: ["a", "active"], AGED - 1: ["a", "active"]}
+        return m, ref
+
+    def id_window(self, ref, extra=0):
+        """the ids offered to operations and queries: all of them, or (aged root) the most recent ones and a few old ones"""
+        hi = (max(ref.issued) + 1 + extra) if ref.issued else extra
+        if not self.aged:
+            return list(range(hi))
+        return [0, 255, 256, 257] + list(range(AGED - 3, hi))
 
     def enabled(self, ref):
         ops = [["create", "a"], ["create", "b"], ["create_n", "a", 2], ["create_n", "b", 2]]
         hi = (max(ref.issued) + 1) if ref.issued else 0
-        for i in range(hi):
+        for i in self.id_window(ref):
             ops.append(["delete", i])
         live = list(ref.live)
         if len(live) >= 2:
@@ -124,7 +142,6 @@ class System:
 
     def compare(self, m, ref):
         viol = []
-        hi = (max(ref.issued) + 2) if ref.issued else 2
 
         def q(name, fn):
             try:
@@ -133,7 +150,7 @@ class System:
                 viol.append(("query-raises/%s/%s" % (name, type(e).__name__), repr(e)))
                 return False, None
 
-        for i in range(hi):
+        for i in self.id_window(ref, extra=1 if ref.issued else 2):
             ok, ag = q("agent", lambda: m.agent(i))
             if ok:
                 if i in ref.live:
@@ -173,14 +190,20 @@ class System:
     def key(self, m, ref):
         return (m.next_agent_id,
                 tuple((a.id, a.agent_type, a.state) for a in m.agents),
-                tuple(sorted((t, tuple(v)) for t, v in m.agent_type_map.items())))
+                tuple(sorted((t, tuple(v)) for t, v in m.agent_type_map.items())),
+                explore.hidden_shape(m))
 
 
-SYSTEM = System(0)
+SYSTEM = System()
+SYSTEM_AGED = System(aged=True)
 
 
 def _worker(hists):
     return explore.expand_many(SYSTEM, hists)
+
+
+def _worker_aged(hists):
+    return explore.expand_many(SYSTEM_AGED, hists)
 
 
 def run(ctx):
@@ -188,13 +211,20 @@ def run(ctx):
     res = explore.bfs(SYSTEM, depth, worker_fn=_worker)
     for sig, hist, detail in res.violations:
         ctx.violation("C14/" + sig, {"history": hist}, detail)
+    # the same search from a non-initial state: a model with a long past
+    depth_aged = 4 if ctx.tier == "quick" else 6
+    res2 = explore.bfs(SYSTEM_AGED, depth_aged, worker_fn=_worker_aged)
+    for sig, hist, detail in res2.violations:
+        ctx.violation("C14/aged-root/" + sig, {"history": hist, "aged": True}, detail)
     ctx.finish({
-        "states": res.states, "transitions": res.transitions,
-        "traces_validated_against_impl": res.transitions,
-        "samples": res.samples, "depth": depth, "per_level": res.per_level,
-        "exhaustive": not res.capped,
+        "states": res.states + res2.states, "transitions": res.transitions + res2.transitions,
+        "traces_validated_against_impl": res.transitions + res2.transitions,
+        "samples": res.samples + [{"aged_root": h} for h in res2.samples[:2]], "depth": depth, "per_level": res.per_level,
+        "aged_root": {"created_then_deleted": AGED - 2, "depth": depth_aged, "states": res2.states, "transitions": res2.transitions, "per_level": res2.per_level},
+        "exhaustive": not (res.capped or res2.capped),
         "rule": "BFS over create/create_n/delete(live+dead ids)/delete_n/configure/reset/set_state "
-                "on a real Model; every query compared with a dict reference after each transition",
+                "on a real Model; every query compared with a dict reference after each transition; a second BFS starts from a model "
+                "in which %d agents were created and all but two deleted (ids passed to the queries by value)" % AGED,
         "oracle_clauses": ["agent(id)", "ids unique/never reused", "agent_ids", "agent_count",
                            "agent_count_per_state", "next_agent", "random_agents subset of live"],
     }, assumptions=["agents are created through registered factories whose name equals the "
@@ -202,10 +232,11 @@ def run(ctx):
 
 
 def replay(case):
-    m, ref = SYSTEM.new()
+    system = SYSTEM_AGED if case.get("aged") else SYSTEM
+    m, ref = system.new()
     out = []
     for op in case["history"]:
-        out = SYSTEM.apply(m, ref, op)
+        out = system.apply(m, ref, op)
         if out:
             return out
     return out
